@@ -393,27 +393,32 @@ func (m *Monitors) OnDeleteRange(node int, min, max uint64, removed []*raft.Log)
 		return
 	}
 	last := removed[len(removed)-1].Index
-	suffix := n.store.hi < min || n.store.hi == 0 // after deletion nothing above remains
 	snapIdx := uint64(0)
 	if s := n.snaps.Newest(); s != nil {
 		snapIdx = s.meta.Index
 	}
-	if suffix && last > snapIdx && !(n.store.lo == 0 && min <= snapIdx+1 && m.w.sc.Store != StorePlain) {
-		// suffix truncation: must not remove committed entries
-		for _, l := range removed {
-			if l.Index <= snapIdx {
-				continue
-			}
-			if f, ok := m.agreed[l.Index]; ok && f.e == appliedOf(l) {
-				m.fail("C03", "committed-truncated", "n%d truncates committed entry %v (DeleteRange %d..%d)", node, f.e, min, max)
-				break
-			}
-		}
+	if last <= snapIdx {
+		return // everything removed is covered by the newest durable snapshot
+	}
+	if n.store.hi > max {
+		// entries above the removed range remain: this is a removal from the front
+		m.fail("C11", "compaction-beyond-snapshot", "n%d DeleteRange(%d,%d) removes index %d above its newest durable snapshot %d", node, min, max, last, snapIdx)
 		return
 	}
-	// front compaction: only entries covered by the newest durable snapshot
-	if last > snapIdx {
-		m.fail("C11", "compaction-beyond-snapshot", "n%d DeleteRange(%d,%d) removes index %d above its newest durable snapshot %d", node, min, max, last, snapIdx)
+	// suffix truncation or wholesale reset: must not remove committed entries that no snapshot covers
+	wholesale := n.store.hi == 0 && m.w.sc.Store != StorePlain
+	for _, l := range removed {
+		if l.Index <= snapIdx {
+			continue
+		}
+		if f, ok := m.agreed[l.Index]; ok && f.e == appliedOf(l) {
+			if wholesale {
+				m.rootCause([]string{"C03"}, "committed-entry-removed-by-log-reset", "n%d resets its whole log (DeleteRange %d..%d, snapshot at %d) and thereby drops committed entry %v which no snapshot of its own covers", node, min, max, snapIdx, f.e)
+			} else {
+				m.fail("C03", "committed-truncated", "n%d truncates committed entry %v (DeleteRange %d..%d)", node, f.e, min, max)
+			}
+			break
+		}
 	}
 }
 
